@@ -205,10 +205,10 @@ class CContext:
             # We are now at the position of this field
             bit_offsets[field] = bit_offset
 
-            if field.name is None:
-                # If the field is anonymous,
-                # fill the offsets of named subfields:
-                assert field.typ.is_struct_or_union
+            if field.name is None and field.typ.is_struct_or_union:
+                # If the field is an anonymous struct or union,
+                # fill the offsets of named subfields.
+                # (An unnamed bit-field only occupies space.)
                 _, sub_field_bit_offsets = self.layout_struct(field.typ)
                 for (
                     sub_field,
